@@ -1081,9 +1081,49 @@ func lenGuarded(c *Ctx, f *ssa.Function, at ssa.Instruction, idx, s ssa.Value) b
 	isLen := func(e *ir.Expr) bool {
 		return e.Op == "call" && e.Name == "builtin:len" && len(e.Args) == 1 && e.Args[0].String() == ss
 	}
-	return w.Guarded(f, at, func(p ir.Pred) bool {
+	if w.Guarded(f, at, func(p ir.Pred) bool {
 		return cmpIs(p, "<", func(a *ir.Expr) bool { return a.String() == is }, isLen)
-	}, 0)
+	}, 0) {
+		return true
+	}
+	// a constant index below the length an SDK key-length assertion on the same bytes has just insisted on
+	// (kv.AssertKeyAtLeastLength(bz, n) panics with a message of its own for a short key: that explicit abort is the
+	// key-parsing class inventoried with the SDK's length-prefixed reader)
+	ic, ok := idx.(*ssa.Const)
+	if !ok || ic.Value == nil {
+		return false
+	}
+	var iv int
+	if _, err := fmt.Sscan(ic.Value.String(), &iv); err != nil {
+		return false
+	}
+	for _, b := range f.Blocks {
+		for _, in := range b.Instrs {
+			call, ok := in.(*ssa.Call)
+			if !ok {
+				continue
+			}
+			sc := call.Common().StaticCallee()
+			if sc == nil || sc.Name() != "AssertKeyAtLeastLength" || len(call.Common().Args) != 2 {
+				continue
+			}
+			if w.ExprOf(call.Common().Args[0]).String() != ss {
+				continue
+			}
+			n, isC := call.Common().Args[1].(*ssa.Const)
+			var nv int
+			if !isC || n.Value == nil {
+				continue
+			}
+			if _, err := fmt.Sscan(n.Value.String(), &nv); err != nil || iv >= nv {
+				continue
+			}
+			if in.Block() == at.Block() && ir.InstrIndex(in) < ir.InstrIndex(at) || in.Block() != at.Block() && in.Block().Dominates(at.Block()) {
+				return true
+			}
+		}
+	}
+	return false
 }
 
 // constIndexIntoFixedParse: a constant index into the bytes returned by sdk.ParseLengthPrefixedBytes(key, start, n)
